@@ -21,6 +21,7 @@ var InjectKinds = []string{
 	"pg-bad-timestamps", "pg-no-pods", "pod-bad-fraction", "pod-bad-gpumemory", "pod-bad-numdevices", "pod-unknown-subgroup",
 	"pod-missing-podgroup", "pod-huge-request", "node-no-labels-zero", "node-bad-gpu-labels", "node-negative", "br-missing-pod",
 	"br-missing-node", "delete-queue-of-running", "delete-podgroup-of-running", "delete-node-of-running",
+	"topology-no-levels", "pg-unknown-topology", "pg-unknown-topology-level", "subgroup-unknown-topology",
 }
 
 var badNumbers = []string{"NaN", "Inf", "-Inf", "-1", "0", "1e309", "abc", "0x1p-2", " 0.5", "0.5 ", "1e-400", "99999999999999999999", "+0.5", "-0", ""}
@@ -108,6 +109,40 @@ func (r *Run) inject(kind string, n int) {
 		_ = r.API.Tracker.Add(pg)
 		_ = r.API.Tracker.Add(newPod(name+"-p0", name, func(p *PodSpec) { p.SubGroup = "a" }))
 		_ = r.API.Tracker.Add(newPod(name+"-p1", name, func(p *PodSpec) { p.SubGroup = "b" }))
+	case "topology-no-levels", "pg-unknown-topology", "pg-unknown-topology-level", "subgroup-unknown-topology":
+		// topology constraints that name nothing usable: a Topology without levels, a missing Topology, a level the
+		// Topology does not define (required or preferred, by variant), the same on a sub-group
+		topo, level := name+"-topo", "kaisim/zone"
+		switch kind {
+		case "topology-no-levels":
+			_ = r.API.Tracker.Add(BuildTopology(TopologySpec{Name: topo}))
+		case "pg-unknown-topology", "subgroup-unknown-topology":
+			topo = "no-such-topology"
+		default:
+			_ = r.API.Tracker.Add(BuildTopology(TopologySpec{Name: topo, Levels: []string{"kaisim/zone", "kubernetes.io/hostname"}}))
+			level = "kaisim/no-such-level"
+		}
+		tc := schedv2alpha2.TopologyConstraint{Topology: topo}
+		switch n % 3 {
+		case 0:
+			tc.RequiredTopologyLevel = level
+		case 1:
+			tc.PreferredTopologyLevel = level
+		default:
+			tc.RequiredTopologyLevel, tc.PreferredTopologyLevel = level, level
+		}
+		pg := newPG(name, healthyQueue, 1)
+		if kind == "subgroup-unknown-topology" {
+			pg.Spec.MinMember = 2
+			pg.Spec.SubGroups = []schedv2alpha2.SubGroup{{Name: "a", MinMember: 1, TopologyConstraint: &tc}, {Name: "b", MinMember: 1}}
+			_ = r.API.Tracker.Add(pg)
+			_ = r.API.Tracker.Add(newPod(name+"-p0", name, func(p *PodSpec) { p.SubGroup = "a" }))
+			_ = r.API.Tracker.Add(newPod(name+"-p1", name, func(p *PodSpec) { p.SubGroup = "b" }))
+		} else {
+			pg.Spec.TopologyConstraint = tc
+			_ = r.API.Tracker.Add(pg)
+			_ = r.API.Tracker.Add(newPod(name+"-p0", name, nil))
+		}
 	case "pg-min-zero", "pg-min-negative", "pg-min-gt-size":
 		min := map[string]int32{"pg-min-zero": 0, "pg-min-negative": -3, "pg-min-gt-size": 7}[kind]
 		pg := newPG(name, healthyQueue, min)
